@@ -7,8 +7,9 @@ CRDT = [("crdt-counter", {"quick": ["-n", "120"], "thorough": ["-n", "4000"], "s
 PROPS = {
     "C01": {"slices": CRDT, "trusted": [], "assumptions": ["clocks below the half-range wrap", "delivery in log order, whole transaction units"]},
     "C02": {"slices": CRDT, "trusted": [], "assumptions": ["clocks below the half-range wrap"]},
+    "C09": {"slices": CRDT, "trusted": [], "assumptions": ["snapshot export/import is the identity on the model state (C10 carries the round trip)"]},
     "C15": {
-        "slices": [("time", {"quick": [], "thorough": [], "search": []})],
+        "slices": [("time", {"quick": [], "thorough": [], "search": []})] + CRDT,
         "trusted": [],
         "assumptions": ["clocks stay below the half-range wrap (era < 2^31, lamport < 2^63) — proved unreachable otherwise only by event counting"],
     },
